@@ -298,8 +298,8 @@ class RawEntry:
         self.entry_len_delta = 0
         self.iv_index = None       # int (1-based position by default)
         self.emac_keep_iv = None   # iv index frozen before a reorder
-        self.flip_pmac = False
-        self.flip_emac = False
+        self.flip_pmac = None      # (byte position, bit mask) to damage in the stored MAC
+        self.flip_emac = None
         self.junk = b""            # bytes appended after the entry MAC (entry length consistent)
 
     def copy(self):
@@ -324,6 +324,11 @@ class RawFile:
         r = RawFile([e.copy() for e in self.entries])
         r.__dict__.update({k: v for k, v in self.__dict__.items() if k != "entries"})
         return r
+
+
+def _flip(m, where):
+    i, mask = where
+    return m[:i] + bytes([m[i] ^ mask]) + m[i + 1:]
 
 
 def emit(raw, off, key, ciph):
@@ -359,7 +364,7 @@ def emit(raw, off, key, ciph):
         if len(pmac) != 16:
             pmac = bytes(16)
         if e.flip_pmac:
-            pmac = bytes([pmac[0] ^ 1]) + pmac[1:]
+            pmac = _flip(pmac, e.flip_pmac)
         dl = e.desc_len if e.desc_len is not None else len(d)
         body = be(4, adr % 2 ** 32) + be(4, total % 2 ** 32) + be(4, e.actual % 2 ** 32) + pmac + be(1, dl % 256) + d
         ivn = e.iv_index if e.iv_index is not None else n + 1
@@ -374,7 +379,7 @@ def emit(raw, off, key, ciph):
             else:
                 raw.fixed_point_failed = True
         if e.flip_emac:
-            emac = bytes([emac[0] ^ 1]) + emac[1:]
+            emac = _flip(emac, e.flip_emac)
         entry = body + emac + e.junk
         directory += be(1, (len(entry) + e.entry_len_delta) % 256) + entry
     directory += raw.sentinel
